@@ -8,7 +8,7 @@
 (* decoder may already hold a pending reassembly for the endpoint (history).   *)
 EXTENDS DecProps, TLC, Json
 
-CONSTANTS MaxMsgs, Pads, DumpCases
+CONSTANTS MaxMsgs, Pads, Corrupt, DumpCases
 
 VARIABLES pc, frame, pre, out, hist
 vars == << pc, frame, pre, out, hist >>
@@ -73,19 +73,36 @@ Pick(ch, cut, pad, withPre) ==
        /\ hist' = << [op |-> "new"] >> \o (IF withPre THEN << [op |-> "decode", in |-> PreFrame] >> ELSE << >>)
                     \o << [op |-> "decode", in |-> b] >>
 
+(* C02: one byte of the frame replaced (header fields, flags, types, every length field), or cut below the header *)
+CorruptAt(w, o, v) == [w EXCEPT ![o + 1] = v]
+PickCorrupt(ch, o, v, withPre) ==
+    LET w  == Whole(ch)
+        b  == CorruptAt(w, o, v)
+        p0 == IF withPre THEN D!Decode(D!EmptyPending, PreFrame).pend ELSE D!EmptyPending
+    IN /\ frame' = b /\ pre' = withPre /\ pc' = "done"
+       /\ out' = D!Decode(p0, b)
+       /\ hist' = << [op |-> "new"] >> \o (IF withPre THEN << [op |-> "decode", in |-> PreFrame] >> ELSE << >>)
+                    \o << [op |-> "decode", in |-> b, place |-> o % 2] >>
+
 Next ==
     /\ pc = "pick"
     /\ \E ch \in Choices :
          /\ SameType(ch)
          /\ \E withPre \in BOOLEAN :
-              \/ \E cut \in 8..Len(Whole(ch)) : Pick(ch, cut, 0, withPre)
-              \/ \E pad \in Pads : Pick(ch, Len(Whole(ch)), pad, withPre)
+              \/ ~Corrupt /\ \E cut \in 8..Len(Whole(ch)) : Pick(ch, cut, 0, withPre)
+              \/ ~Corrupt /\ \E pad \in Pads : Pick(ch, Len(Whole(ch)), pad, withPre)
+              \/ Corrupt /\ \E cut \in 0..7 : Pick(ch, cut, 0, withPre)
+              \/ Corrupt /\ \E o \in 0..(Len(Whole(ch)) - 1) :
+                     (o < 24 \/ Whole(ch)[o + 1] < 70 \/ o % 16 \in {4, 5, 6, 7}) /\
+                     \E v \in {0, 1, 255, (Whole(ch)[o + 1] + 1) % 256, (Whole(ch)[o + 1] + 255) % 256,
+                                (Whole(ch)[o + 1] + 64) % 256, (Whole(ch)[o + 1] + 4) % 256} :
+                         v # Whole(ch)[o + 1] /\ PickCorrupt(ch, o, v, withPre)
 
 Spec == Init /\ [][Next]_vars
 
 InvC04 == (pc = "done" /\ InC04Domain(frame)) => DecodedMatchesWire(frame, out.out)
 (* an unsegmented message supersedes a pending reassembly; a header-only frame leaves it alone *)
-InvSupersede == pc = "done" => (DOMAIN out.pend # {} <=> (pre /\ Len(frame) = 8))
+InvSupersede == (pc = "done" /\ ~Corrupt) => (DOMAIN out.pend # {} <=> (pre /\ Len(frame) = 8))
 InvC02 == pc = "done" => OutputBound(frame, out.out)
 
 DumpEdges == (DumpCases /\ pc' = "done") => PrintT(<< "CASE", ToJson(hist') >>)
